@@ -63,7 +63,10 @@ var ExtLits = map[string][]string{
 		"2024-01-01T00:00:00", "2024-01-01T00:00Z", "2024-01-01 00:00:00Z", "2024-1-1", "24-01-01", "2024-01-01T00:00:00.0Z", "2024-01-01T00:00:00.0000Z", "2024-01-01T00:00:00z", "2024-01-01T00:00:00+01:00", "", "x", "2024-01-01Z", "+2024-01-01", "10000-01-01"},
 	"duration": {"0ms", "1ms", "1s", "1m", "1h", "1d", "1d1h1m1s1ms", "-1d", "-1ms", "9223372036854775807ms", "9223372036854775808ms", "-9223372036854775807ms", "-9223372036854775808ms",
 		"106751991167d7h12m55s807ms", "106751991167d7h12m55s808ms", "-106751991167d7h12m55s808ms", "-106751991167d7h12m55s809ms", "106751991168d", "1h1d", "1m1m", "1", "d", "", "-", "1x", "1 d", "1D", "+1d", "1.5d", "1ms1s", "01d", "0d0h", "1dms", "99999999999999999999d"},
-	"ip": {"127.0.0.1", "10.0.0.0/8", "0.0.0.0/0", "1.2.3.4/32", "1.2.3.4/33", "256.0.0.1", "1.2.3", "1.2.3.4.5", "::1", "::", "::/0", "ff00::/8", "2001:db8::1/128", "2001:db8::1/129", "::ffff:1.2.3.4", "1::2::3", "12345::1", "g::1", "", "a", "1.2.3.4/", "1.2.3.4/-1", "1:2:3:4:5:6:7:8", "1:2:3:4:5:6:7:8:9", "1:2:3:4:5:6:7", " 1.2.3.4", "1.2.3.4/ 8"},
+	"ip": {"127.0.0.1", "10.0.0.0/8", "0.0.0.0/0", "1.2.3.4/32", "1.2.3.4/33", "256.0.0.1", "1.2.3", "1.2.3.4.5", "::1", "::", "::/0", "ff00::/8", "2001:db8::1/128", "2001:db8::1/129", "::ffff:1.2.3.4", "1::2::3", "12345::1", "g::1", "", "a", "1.2.3.4/", "1.2.3.4/-1", "1:2:3:4:5:6:7:8", "1:2:3:4:5:6:7:8:9", "1:2:3:4:5:6:7", " 1.2.3.4", "1.2.3.4/ 8",
+		// a dotted quad inside an IPv6 literal is never accepted, however the rest is spelled
+		"0:0:0:0:0:ffff:192.0.2.128", "0:0:0:0:0:ffff:192.0.2.128/120", "1:2:3:4:5:6:7.8.9.10", "1:2:3:4:5:6:7.8.9.10/128", "::1.2.3.4", "64:ff9b::1.2.3.4", "::ffff:1.2.3.4/96", "1::2:3.4.5.6", "0:0:0:0:0:0:1.2.3.4",
+		"::ffff:c000:280", "::ffff:c000:280/120", "0:0:0:0:0:ffff:c000:280", "1:2:3:4:5:6:7:8/0", "FF00::/8", "2001:DB8::1", "::1/128", "0::0", "0:0:0:0:0:0:0:0"},
 }
 
 // Stores ---------------------------------------------------------------------
